@@ -16,9 +16,6 @@ func VerifHarness_C03_LaterWritesInvisible() { hLaterWritesInvisible(3) }
 func VerifHarness_C03_LaterWritesInvisibleDB() { hWithDB(func() { hLaterWritesInvisible(2) }) }
 
 func hLaterWritesInvisible(N int) {
-	if sym.Thorough() && !hUseDB { // the DB variant keeps its size in the thorough tier
-		N++
-	}
 	n := 2 + sym.Choose("n", N-1)
 	h := hHistory(n, hPointAndRangeKinds)
 	hPlace(h, 2)
